@@ -139,10 +139,48 @@ def run_C06(ctx, E):
     stage_record_trace(ctx, E, "tr", "C06_Trace", "C06_Trace.cfg", heap="8g")
 
 
+def stage_expect_violation(ctx, E, name, module, cfg, what, workers=16, timeout=1200):
+    """Design-level lead: TLC is EXPECTED to find an invariant violation on the as-built model.
+    It is informational (a lead, never a verdict): verdicts come from the replayed real code."""
+    res = E.run_tlc(ctx.work, name, module, cfg, workers=workers, timeout=timeout)
+    ctx.add_tlc(res)
+    found = res["rc"] == 12 and "is violated" in res["out"]
+    ctx.stage_info.append({"stage": "MC-as-built " + name, "expected_violation": what, "tlc_found_it": found,
+                           "states": res["distinct"]})
+    E.log("%s: as-built model %s %s (design-level lead)" % (name, "VIOLATES" if found else "satisfies", what))
+    return found
+
+
+def run_C08(ctx, E):
+    stage_mc_only(ctx, E, "repaired", "C08_MC", "C08_MC_repaired.cfg")
+    stage_expect_violation(ctx, E, "asbuilt_pristine", "C08_MC", "C08_MC_asbuilt_pristine.cfg", "Pristine")
+    stage_expect_violation(ctx, E, "asbuilt_indep", "C08_MC", "C08_MC_asbuilt_indep.cfg", "Independence")
+    stage_mc_replay(ctx, E, "session", "C08_MC", "C08_MC_%s.cfg" % ctx.tier, heap="24g")
+    stage_record_trace(ctx, E, "hist", "C08_Trace", "C08_Trace.cfg", heap="16g")
+
+
 _seqhash_note = ("trusted: TLC, community modules; the digest is uninterpreted in the specification and instantiated "
                  "in the replayer by a from-scratch BLAKE3 transcription pinned by the official test vectors; "
                  "double-stranded inputs containing Z or (under type DNA) U are outside the strand clause and not replayed")
 PROPS = {
+    "C08": dict(run=run_C08,
+                technique="TLC model checking of a two-machine session specification (value semantics vs. heap with "
+                          "aliasing, CodonSession.tla); one behaviour per transition of the bounded state graph replayed "
+                          "on the real API; recorded histories validated by C08_Trace (counting decided by TLC)",
+                level_text="every transition of the session graph over {get, re-weight, add, compromise, serialise/"
+                           "parse} x 3 table ids x 4 coding sequences x 3 handles to depth 4 (quick) / 5 (thorough) is "
+                           "replayed as a history on the real API and the weights of every live table and of fresh "
+                           "default tables are compared with both machines after the last step; the repaired design "
+                           "(deep-copy Get) is model-checked to satisfy Pristine and Independence, the as-built design "
+                           "to violate them; random histories to 50 steps with sequences to 10^5 bases are validated "
+                           "step by step by the trace spec",
+                level_note="trusted: TLC, community modules, the projection of a real table to triplet->weight/letter "
+                           "maps; the default tables are restored between histories through the public API "
+                           "(re-weighting with every codon once)",
+                rule="S->I: one history per transition (BFS path + edge), non-trivial = at least 2 steps; I->S: one "
+                     "event per API call of a random history, all judged",
+                assumptions=["compromise cells within 1 of the cut-off or of amino acids with total weight 0 are "
+                             "unconstrained (Wild)"]),
     "C06": dict(run=run_C06,
                 technique="TLC complete enumeration of GeneticCode.tla (standard code + NCBI reassignments, start/stop "
                           "lists) with homomorphism theorems; every cell replayed on codon.Translate/GetCodonTable; TLC "
